@@ -38,16 +38,17 @@ from harness.core import MachineryError
 
 PID = 'C16'
 INVS = ['TypeOK', 'LoadReturnsLastSaved', 'FileHoldsLastSaved', 'RefusalExactly', 'RefusedLeavesFsUnchanged',
-        'OverwriteIsReplaceNotMerge', 'FrameOtherPath', 'SaveLeavesObjectUnchanged', 'NoMerge']
+        'OverwriteIsReplaceNotMerge', 'FrameOtherPath', 'SaveLeavesObjectUnchanged', 'NoMerge',
+        'StreamReadsInOrder', 'StreamHoldsWrites', 'StreamFrame']
 # deliberately broken designs of Persist.tla and the invariant (checked alone) that must catch each
-BROKEN = {'no_remove': 'OverwriteIsReplaceNotMerge', 'no_guard': 'NoMerge', 'guard_str_only': 'RefusalExactly', 'refusal_cleans_up': 'RefusedLeavesFsUnchanged',
+BROKEN = {'load_rewinds': 'StreamReadsInOrder', 'no_remove': 'OverwriteIsReplaceNotMerge', 'no_guard': 'NoMerge', 'guard_str_only': 'RefusalExactly', 'refusal_cleans_up': 'RefusedLeavesFsUnchanged',
           'pkl_refuses': 'RefusalExactly', 'writer_marks': 'SaveLeavesObjectUnchanged'}
 
 
 def cfg(depth, *, ka='KA_quick', modes='AllModes', emitmod=1, design='code', emit=True, spec=False,
-        invs=INVS):
+        invs=INVS, ops='FsOps'):
     lines = ['CONSTANTS', '  NPath = 2', '  NObj = 3', f'  KindAssignments <- {ka}', f'  Depth = {depth}',
-             f'  EmitMod = {emitmod}', f'  Modes <- {modes}', f'  Design = "{design}"']
+             f'  EmitMod = {emitmod}', f'  Modes <- {modes}', f'  Ops <- {ops}', f'  Design = "{design}"']
     lines += ['SPECIFICATION TSpec'] if spec else ['INIT Init', 'NEXT Next']
     lines += [f'INVARIANT {i}' for i in invs]
     if emit:
@@ -79,7 +80,7 @@ def _replay_chunk(args):
         for h in rec['hist'][:steps]:
             e = h['ev']
             classes.add((e['op'], e['fmt'], e['mode'], e['ow'], e['src'], h['out']))
-        if any(e['op'] == 'load' for e in evs) or len({e['p'] for e in evs if e['op'] == 'save'}) < sum(e['op'] == 'save' for e in evs):
+        if any(e['op'] in ('load', 'sload') for e in evs) or len({e['p'] for e in evs if e['op'] == 'save'}) < sum(e['op'] == 'save' for e in evs):
             nontriv += 1
         if v is not None:
             bad.append(v)
@@ -188,6 +189,12 @@ def replay_all(ctx, pool, r, safe, label, limit=None):
 
 def _trace_key(st, clause, expected):
     e = st['ev']
+    if e['op'] in ('ssave', 'sload', 'sseek'):
+        if clause == 'mem':
+            return 'd/pkl/object-changed'
+        if clause == 'loaded':
+            return 'a/pkl/stream/load/wrong-object'
+        return f"e/pkl/stream/{e['op']}/stream-state"
     if e['op'] == 'save':
         if clause == 'mem':
             return f"d/{e['fmt']}/object-changed"
@@ -214,6 +221,8 @@ def record_and_validate(ctx, pool, safe, ntraces, length):
             bad = steps[-1]
             e = bad['ev']
             key = (f"e/{e['fmt']}/{e['mode']}/{bad['sit']}/raises-{bad['errtype']}" if e['op'] == 'save'
+                   else f"e/pkl/stream/{bad['sit']}/raises-{bad['errtype']}" if e['op'] == 'ssave'
+                   else f"a/pkl/stream/load/raises-{bad['errtype']}" if e['op'] == 'sload'
                    else f"a/{e['fmt']}/history-load/raises-{bad['errtype']}")
             ctx.violation(f'{PID}/{key}', f"recorded history: {e['op']} raises inside the contract: {bad['error']}",
                           {'seed': seed, 'kinds': rec['kinds'], 'features': rec['features'],
@@ -221,10 +230,10 @@ def record_and_validate(ctx, pool, safe, ntraces, length):
             steps = steps[:-1]
         if steps:
             traces.append({'kinds': rec['kinds'],
-                           'steps': [{k: s[k] for k in ('ev', 'out', 'res', 'memok', 'post')} for s in steps]})
+                           'steps': [{k: s[k] for k in ('ev', 'out', 'res', 'memok', 'post', 'spost')} for s in steps]})
             meta.append((seed, rec, steps))
             ctx.count(len(steps))
-    tcfg = cfg(0, ka='KA_none', emit=False, spec=True)
+    tcfg = cfg(0, ka='KA_none', emit=False, spec=True, ops='AllOps')
     rejected = ctx.validate('MC_Trace_Persist', tcfg, traces, name='trace_persist')
     rej_idx = set()
     for idx, diag in rejected:
@@ -243,7 +252,8 @@ def record_and_validate(ctx, pool, safe, ntraces, length):
         ctx.violation(f"{PID}/{_trace_key(st, d['clause'], d.get('expected', {}))}",
                       f"recorded history leaves the specification (clause {d['clause']}): {st.get('why', '')[:200]}",
                       {'seed': seed, 'kinds': rec['kinds'], 'features': rec['features'], 'step': d['l'] - 1,
-                       'events': [s['ev'] for s in steps[:d['l']]], 'observed': {k: st[k] for k in ('out', 'res', 'memok', 'post')},
+                       'events': [s['ev'] for s in steps[:d['l']]],
+                       'observed': {k: st[k] for k in ('out', 'res', 'memok', 'post', 'spost')},
                        'expected': d.get('expected'), 'why': st.get('why', '')})
     # binding self-test: a corrupted record must be rejected
     good = [t for i, t in enumerate(traces) if i not in rej_idx][:24]
@@ -252,13 +262,15 @@ def record_and_validate(ctx, pool, safe, ntraces, length):
         t = json.loads(json.dumps(t))
         k = (i * 5) % len(t['steps'])
         st = t['steps'][k]
-        how = i % 4
-        if how == 0:
+        how = i % 5
+        if how == 4:
+            st['spost']['pos'] += 1
+        elif how == 0:
             st['post'][st['ev']['p'] - 1]['own'] = (st['post'][st['ev']['p'] - 1]['own'] % 3) + 1
         elif how == 1:
             st['out'] = 'Refused' if st['out'] == 'Ok' else 'Ok'
         elif how == 2:
-            st['res'] = (st['res'] % 3) + 1 if st['ev']['op'] == 'load' else 2
+            st['res'] = (st['res'] % 3) + 1 if st['ev']['op'] in ('load', 'sload') else 2
         else:
             st['memok'] = 0
         corrupted.append(t)
@@ -276,7 +288,9 @@ def spec_nonvacuity(ctx, designs):
     """the invariants of Persist.tla can fail: each deliberately broken design is caught by TLC"""
     res = {}
     for d in designs:
-        r = ctx.tlc('MC_Persist', cfg(2, ka='KA_quick', design=d, emit=False, invs=[BROKEN[d]]), name=f'persist_broken_{d}',
+        c = cfg(5, ka='KA_small', design=d, emit=False, invs=[BROKEN[d]], ops='StreamOps') if d == 'load_rewinds' else \
+            cfg(2, ka='KA_quick', design=d, emit=False, invs=[BROKEN[d]])
+        r = ctx.tlc('MC_Persist', c, name=f'persist_broken_{d}',
                     must_pass=False, count=False, workers=4, timeout=600)
         if r.ok or r.invariant != BROKEN[d]:
             raise MachineryError(f'broken design {d} of Persist.tla is not caught by the invariants '
@@ -429,6 +443,11 @@ def run(ctx):
             r = ctx.tlc('MC_Persist', cfg(depth, ka=ka, modes=modes, emitmod=mod), name=f'persist_d{depth}_{ka}_{modes}',
                         timeout=1700, coverage=False)
             results.append((r, f'd{depth}{modes}'))
+        # pickle streams: several objects through ONE handle, read back in order (position is state)
+        for sdepth, ska, smod in ([(7, 'KA_small', 150), (6, 'KA_all', 100)] if thorough else [(6, 'KA_small', 40)]):
+            r = ctx.tlc('MC_Persist', cfg(sdepth, ka=ska, ops='StreamOps', emitmod=smod), name=f'persist_stream_d{sdepth}_{ska}',
+                        timeout=1700)
+            results.append((r, f'stream{sdepth}{ska}'))
         table = check_key_table(ctx, results[0][0])
         ctx.extra['kinds_in_spec'] = sorted(table)
         # ---- catalogue matrix (decides which features may be used inside histories)
@@ -448,7 +467,7 @@ def run(ctx):
                         'outcomes': [h['out'] for h in first['hist']]})
             total += replay_all(ctx, pool, r, safe, label)
         nsim, dsim = (2000, 10) if thorough else (320, 8)
-        r = ctx.tlc('MC_Persist', cfg(dsim, ka='KA_all'), name='persist_sim', simulate=f'num={nsim // 16}',
+        r = ctx.tlc('MC_Persist', cfg(dsim, ka='KA_all', ops='AllOps'), name='persist_sim', simulate=f'num={nsim // 16}',
                     depth=dsim + 1, workers=16, timeout=45)
         if r.n_emitted < nsim // 2:
             raise MachineryError(f'simulation emitted only {r.n_emitted} histories')
@@ -459,6 +478,8 @@ def run(ctx):
         ctx.extra['event_classes_executed'] = len(seen)       # (op, fmt, mode, overwrite, source, outcome)
         need = [('save', f, m, ow, 0, 'Ok') for f in P.FMTS for m in ('path', 'pathlib', 'fresh', 'kept') for ow in (0, 1)] + \
                [('save', 'hdf5', 'path', 0, 0, 'Refused'), ('save', 'hdf5', 'pathlib', 0, 0, 'Refused')] + \
+               [('ssave', 'pkl', 'stream', 0, 0, 'Ok'), ('ssave', 'pkl', 'stream', 1, 0, 'Ok'), ('ssave', 'pkl', 'stream', 0, 1, 'Ok'),
+                ('sload', 'pkl', 'stream', 0, 0, 'Ok'), ('sseek', 'pkl', 'stream', 0, 0, 'Ok')] + \
                [('load', f, m, 0, 0, 'Ok') for f in P.FMTS for m in ('path', 'pathlib', 'fresh')] + [('close', '', '', 0, 0, 'Ok')]
         missing = [c for c in need if c not in seen]
         for f in P.FMTS:                   # the reloaded object saved again, in both formats
@@ -471,5 +492,5 @@ def run(ctx):
         ctx.extra['recorded_histories'] = n
         # ---- clause c
         structural(ctx, pool, safe, 2400 if thorough else 480, 1500 if thorough else 250, 8)
-    spec_nonvacuity(ctx, list(BROKEN) if thorough else ['no_remove', 'guard_str_only'])
+    spec_nonvacuity(ctx, list(BROKEN) if thorough else ['no_remove', 'guard_str_only', 'load_rewinds'])
     probes(ctx)
